@@ -736,7 +736,7 @@ SLE_T_LO, SLE_T_HI = 250.0, 450.0
 SOLUTES = ['Tetradecanol', 'LacticAcid', 'AceticAcid', 'Glucose', 'Phenol', 'Naphthalene', 'Dodecanol']
 SOLVENTS = ['Water', 'Methanol', 'Ethanol', 'Octanol', 'Hexane', 'Acetone', 'Toluene']
 GAMMA_MAX = 1e3          # DESIGN section 9: gamma > 1e3 is outside the quantified domain
-NONIDEAL_GAMMA = 10.0    # region tag: solute gamma (at infinite dilution or in the returned liquid) >= 10
+NONIDEAL_GAMMA = 10.0    # region tag nonideal=1: solute gamma (infinite dilution / returned liquid) >= 10, or x*gamma(x) not monotone
 SOL_RTOL = 1e-4          # SLE._solve_x iterates x with an absolute xtol=1e-6 (Aitken step size): allow
 SOL_ATOL = 2e-5          # 1e-4 relative + 20 xtol absolute (observed on saturated answers: 2e-5 relative)
 _sle_thermo = {}
@@ -930,14 +930,42 @@ def sle_clauses(fails, ctx, th, names, solute, before, s, call, region, act_coef
         ctx.cell('sle:avoided:gamma>1e3')
         return
     nonideal = int(max(gam_inf, gam) >= NONIDEAL_GAMMA)
+    xs = eutectic(T, c.Tm, c.Hfus, c.Cn.l(T), c.Cn.s(T), gam)
+    if not nonideal and act_coef is None and not (xl <= xs * (1.0 + SOL_RTOL) + SOL_ATOL):
+        # second half of the region predicate, evaluated only when it matters: the solute's activity x*gamma(x) is
+        # not monotone in x (solvent ratios fixed) - then x -> x_ideal/gamma(x) is not a contraction and the
+        # saturation equation has several roots, whatever gamma at infinite dilution is (seen with 9.5)
+        if not activity_monotone(g, liq1[present], present.index(i), T):
+            nonideal = 1
+            ctx.cell('sle:nonideal-by-activity-curve')
     ctx.cell(f'sle:solubility-clause-applied:nonideal={nonideal}')
     region = f'{region},nonideal={nonideal}{sol_tag}'
-    xs = eutectic(T, c.Tm, c.Hfus, c.Cn.l(T), c.Cn.s(T), gam)
     if sol1[i] > 0:
         ctx.metric_max(f'sle.solubility:computed:rel-excess(saturated):{region.split(",", 2)[2]}', xl / xs - 1.0)
     fails.check(xl <= xs * (1.0 + SOL_RTOL) + SOL_ATOL, f'sle.solubility|{region}|exceeds',
                 lambda: f'x_solute(liquid)={xl!r} > eutectic solubility {xs!r} (gamma={gam!r}, T={T}); '
                         f'l={liq1.tolist()} s={sol1.tolist()}')
+
+
+def activity_monotone(g, liq_present, k, T):
+    """Is the solute's activity x*gamma(x) increasing in x on (0, 1), the other chemicals kept in their ratios?"""
+    rest = np.array(liq_present, float)
+    rest[k] = 0.0
+    if rest.sum() <= 0:
+        return True
+    rest = rest / rest.sum()
+    a_prev = 0.0
+    for x in (1e-3, 0.01, 0.03, 0.06, 0.1, 0.15, 0.2, 0.3, 0.4, 0.5, 0.6, 0.7, 0.8, 0.9, 0.97):
+        z = rest * (1.0 - x)
+        z[k] = x
+        with np.errstate(all='ignore'):
+            a = x * float(np.asarray(g(z.copy(), T), float)[k])
+        if not np.isfinite(a):
+            return True
+        if a < a_prev * (1.0 - 1e-9):
+            return False
+        a_prev = a
+    return True
 
 
 def form_tag(call):
